@@ -1790,6 +1790,13 @@ def respath_api(rng, name, npat=36):
         res.append({"type": rtype, "short": tn, "pattern": pat, "vars": used, "form": form, "how": how, "held_by": q.pb.name})
         tags.update(["form:" + form, "how:" + how, "held-by:" + q.pb.name])
     q = top
+    # an API may declare and reference a resource whose TYPE is one of the built-in common ones (locations.googleapis.com/Location):
+    # it gets its own <name>_path helpers next to the common_* ones
+    f.resource_definition("locations.googleapis.com/Location", "projects/{project}/locations/{location}")
+    q.field("in_location", "string", ref="locations.googleapis.com/Location")
+    res.append({"type": "locations.googleapis.com/Location", "short": "Location", "pattern": "projects/{project}/locations/{location}",
+                "vars": ["project", "location"], "form": "plain", "how": "definition_with_common_type"})
+    tags.add("how:definition_with_common_type")
     # wildcard pattern
     m = f.message("WildThing")
     m.resource(f"{name}.googleapis.com/WildThing", "*")
@@ -1852,11 +1859,16 @@ def autopop_api(rng, name, violation=None):
     s.rpc("Untouched", P + ".Req", P + ".Reply", http={"post": "/v1/{name=things/*}:untouched"}, body="*")
     s.rpc("Tail", P + ".Req", P + ".Reply", ss=True, http={"get": "/v1/{name=things/*}:tail"})
     s.rpc("Upload", P + ".Req", P + ".Reply", cs=True)
+    # a long-running method is a unary RPC too: its request ids are populated like any other
+    s.rpc("StartJob", P + ".Req", ".google.longrunning.Operation", http={"post": "/v1/{name=things/*}:startJob"}, body="*", lro=("Reply", "Sub"))
+    s.rpc("Purge", P + ".Req", ".google.protobuf.Empty", http={"post": "/v1/{name=things/*}:purge"}, body="*")
     S = f"{pkg}.Ids"
     settings = [
         {"selector": f"{S}.Create", "auto_populated_fields": ["request_id", "opt_request_id"]},
         {"selector": f"{S}.Fetch", "auto_populated_fields": rng.choice([["request_id"], ["opt_request_id"], ["request_id", "third_id"]])},
         {"selector": f"{S}.Patch", "auto_populated_fields": ["opt_request_id", "request_id"]},
+        {"selector": f"{S}.StartJob", "auto_populated_fields": rng.choice([["request_id"], ["opt_request_id", "request_id"]])},
+        {"selector": f"{S}.Purge", "auto_populated_fields": ["request_id", "third_id"]},
     ]
     bad = {
         "unknown_method": {"selector": f"{S}.Nope", "auto_populated_fields": ["request_id"]},
